@@ -335,8 +335,19 @@ def _stat_real(case):
                 if len(xs) > 1:
                     out["h5_std"] = np.array(f["stats/standard deviation"]).tolist()
                 out["h5_samples"] = [np.array(f["samples"][str(i)]).tolist() for i in range(len(xs))]
+            # multi-field samples through an operator: one HDF5 group per sample / statistic, one dataset per key
+            mfl = [ift.MultiField.from_dict({"u": f_, "w": 3. * f_}) for f_ in fl]
+            msl = ift.SampleList(mfl)
+            op = ift.ScalingOperator(mfl[0].domain, 1.)
+            fn2 = os.path.join(d, "m.h5")
+            msl.save_to_hdf5(fn2, op=op, samples=True, mean=True, std=len(xs) > 1, overwrite=True)
+            with h5py.File(fn2, "r") as f:
+                out["h5m_mean"] = [np.array(f["stats/mean"][k]).tolist() for k in ("u", "w")]
+                if len(xs) > 1:
+                    out["h5m_std"] = [np.array(f["stats/standard deviation"][k]).tolist() for k in ("u", "w")]
+                out["h5m_samples"] = [[np.array(f["samples"][str(i)][k]).tolist() for k in ("u", "w")] for i in range(len(xs))]
         except Exception as e:  # noqa: BLE001
-            out["h5_error"] = type(e).__name__
+            out["h5_error"] = type(e).__name__ + ":" + str(e)[:80]
         finally:
             shutil.rmtree(d, ignore_errors=True)
     return out
@@ -466,6 +477,16 @@ def _stat_oracle(case):
                         dict(sig, what="h5-std"))
         if o["h5_samples"] != [[x, 2 * x + 1] for x in xs]:
             return ("HDF5 samples differ from the sample list", dict(sig, what="h5-samples"))
+        if not (_close(o["h5m_mean"][0][0], m, sc) and _close(o["h5m_mean"][1][0], 3 * m, 3 * sc)
+                and _close(o["h5m_mean"][1][1], 3 * m2, 6 * sc)):
+            return (f"HDF5 mean of multi-field samples {o['h5m_mean']} != per-key arithmetic means", dict(sig, what="h5-multi-mean"))
+        if len(xs) > 1:
+            import math
+            if not (_close(o["h5m_std"][0][0], math.sqrt(v), sc) and _close(o["h5m_std"][1][0], 3 * math.sqrt(v), 3 * sc)):
+                return (f"HDF5 standard deviation of multi-field samples {o['h5m_std']} is not the per-key unbiased one",
+                        dict(sig, what="h5-multi-std"))
+        if o["h5m_samples"] != [[[x, 2 * x + 1], [3 * x, 3 * (2 * x + 1)]] for x in xs]:
+            return ("HDF5 multi-field samples differ from the sample list", dict(sig, what="h5-multi-samples"))
     return None
 
 
